@@ -37,6 +37,22 @@ CHECKS = {
                      "specific activity and configured default densities equal q*m(pf)*F/m(pt) for an independently "
                      "written factor table; zero cells and the non-enzyme-in-U rejection; linearity, composition over "
                      "all base-unit triples, round trips; storage conversions; the enzyme factory's unit texts."),
+    'C10': dict(engine=E1, design='§4 C10',
+                technique="inductive step of the volume invariant through every mutator + observers vs definitions, symbolic execution with z3",
+                text="from an arbitrary valid state through each of 20 mutator variants the stored volume equals the summed "
+                     "content volume and respects the capacity; get_volume (10 prefixes), get_concentration (20 unit "
+                     "spellings) and the plate observers equal the value computed from contents by definition, output "
+                     "rounding modelled."),
+    'C11': dict(engine=E1, design='§4 C11',
+                technique="symbolic execution of Container.dilute/fill_to; target equation and solvent-only change decided by z3",
+                text="for 7 mixture shapes x 15 concentration spellings (dilute) and 8 fill units (fill_to): only the "
+                     "named solvent changes and does not decrease, the target concentration / total quantity is met "
+                     "(cross-multiplied), capacity respected, refusals justified, no-op only inside the 1e-6 band."),
+    'C17': dict(engine=E1, design='§4 C17',
+                technique="symbolic execution of remove on containers/plates/slices and of the recipe tracking queries; z3",
+                text="selected substances absent, all others identical terms, volume recomputed, wells outside the slice "
+                     "identical, and for recipe steps get_substance_used / get_container_flows report exactly the "
+                     "removed amounts (per well for plates)."),
     'C02': dict(engine=E1, design='§4 C02',
                 technique="symbolic execution of Container.transfer/Plate.transfer with z3 (QF_NRA/LRA), differential vs independent unit table",
                 text="size of the aliquot (in the unit of q), uniformity (cross-multiplied ratios) and destination gain "
